@@ -28,3 +28,7 @@ def run(ctx):
     sc.sched_check(
         ctx, so.c05, ['sched', 'mixed'], nontrivial,
         rule='random acyclic engines (<= 8 algorithms, task/analysis/regress, 2 targets) x random histories of organize / dispatch / replies (success, failure, invalid) / worker events; corpus of directed scenarios first. Non-trivial = a failed or invalid reply arrived while >= 1 dependent and >= 1 unrelated node had pending work')
+
+
+def replay(ctx, obj):
+    sc.sched_replay(ctx, obj, so.c05)
